@@ -2,7 +2,7 @@
 use crate::engine::Outcome;
 use serde_json::Value;
 
-pub const ENGINES: &[&str] = &["C13", "C16", "C12", "C11", "C06", "C02", "C04"];
+pub const ENGINES: &[&str] = &["C13", "C16", "C12", "C11", "C06", "C02", "C04", "C14", "C15"];
 
 pub fn cases(engine: &str, run_seed: u64, tier: &str, scratch: &str) -> Vec<Value> {
     match engine {
@@ -12,6 +12,8 @@ pub fn cases(engine: &str, run_seed: u64, tier: &str, scratch: &str) -> Vec<Valu
         "C06" => crate::c06::cases(run_seed, tier, scratch),
         "C02" => crate::c02::cases(run_seed, tier, scratch),
         "C04" => crate::c04::cases(run_seed, tier, scratch),
+        "C14" => crate::c14::cases_c14(run_seed, tier, scratch),
+        "C15" => crate::c14::cases_c15(run_seed, tier, scratch),
         #[cfg(umya_verif_sched)]
         "C16" => crate::c16::cases(run_seed, tier, scratch),
         _ => Vec::new(),
@@ -26,6 +28,7 @@ pub fn execute(case: &Value, scratch: &str) -> Outcome {
         "C06" => crate::c06::execute(case, scratch),
         "C02" => crate::c02::execute(case, scratch),
         "C04" => crate::c04::execute(case, scratch),
+        "C14" | "C15" => crate::c14::execute(case, scratch),
         #[cfg(umya_verif_sched)]
         "C16" => crate::c16::execute(case, scratch),
         e => Outcome { harness_error: Some(format!("unknown engine {:?}", e)), ..Default::default() },
@@ -41,6 +44,7 @@ pub fn shrink_keys(engine: &str) -> &'static [&'static str] {
         "C06" => &["steps"],
         "C02" => &["steps", "materialise"],
         "C04" => &["steps"],
+        "C14" => &["ops"],
         "C16" => &["clone_ops", "base_ops", "savers"],
         _ => &["ops"],
     }
